@@ -420,6 +420,7 @@ func Instances() []Instance {
 	add(26, "IAPREFIX/len32", func() dhcpv6.Option { return iaprefix(AddrA, 32, time.Second, time.Second) })
 	add(26, "IAPREFIX/len48", func() dhcpv6.Option { return iaprefix(AddrB, 48, durB, durA) })
 	add(26, "IAPREFIX/len96-ones", func() dhcpv6.Option { return iaprefix(AddrOnes, 96, 0, 0) })
+	add(26, "IAPREFIX/nil+status", func() dhcpv6.Option { return iaprefix(nil, 0, durA, durB, status(6, "NoPrefixAvail")) })
 	add(26, "IAPREFIX/unknown-nested", func() dhcpv6.Option { return iaprefix(AddrA, 56, durA, durB, generic(67, Bytes(4, 3))) })
 	// 32: information refresh time
 	add(32, "irt/0", func() dhcpv6.Option { return dhcpv6.OptInformationRefreshTime(0) })
@@ -675,6 +676,7 @@ func Containers() []Container {
 		{Name: "IA_PD", Code: 25, Wrap: func(in dhcpv6.Option) dhcpv6.Option { return iapd(iaid1, durA, durB, in) }},
 		{Name: "IAADDR", Code: 5, Wrap: func(in dhcpv6.Option) dhcpv6.Option { return iaaddr(AddrA, durA, durB, in) }},
 		{Name: "IAPREFIX", Code: 26, Wrap: func(in dhcpv6.Option) dhcpv6.Option { return iaprefix(AddrA, 56, durA, durB, in) }},
+		{Name: "IAPREFIX(no prefix)", Code: 26, Wrap: func(in dhcpv6.Option) dhcpv6.Option { return iaprefix(nil, 0, durA, durB, in) }},
 		{Name: "vendor-opts", Code: 17, Opaque: true, Wrap: func(in dhcpv6.Option) dhcpv6.Option {
 			return &dhcpv6.OptVendorOpts{EnterpriseNumber: 0x01020304, VendorOpts: dhcpv6.Options{asGeneric(in)}}
 		}},
